@@ -29,6 +29,7 @@ package locking
 //@   before_call Remove#2 [removes_only_dead_owner_unreadable] !has(fsIsFile, lockPath) || !has(alive, lockCreator)
 //@   before_call Remove#3 [removes_only_dead_owner_unparsable] !has(fsIsFile, lockPath) || !has(alive, lockCreator)
 //@   before_call Remove#4 [removes_only_dead_owner_stale_pid] !has(fsIsFile, lockPath) || !has(alive, lockCreator)
+//@   before_call OpenFile#1 [holders_pid_is_readable_by_every_contender] hasBit(arg3, 4) && hasBit(arg3, 32) && hasBit(arg3, 256)
 //@   before_call After#1 [waits_only_after_finding_the_recorded_holder_alive] probedSinceCreateAttempt && lastProbeAlive && lastProbedPid == otherPid
 //@   before_call Close#1 [content_is_pid_or_empty] has(fsIsFile, lockPath) ==> select(fsData, lockPath) == "" || select(fsData, lockPath) == itoa(lockCreator)
 //@ loop #1
